@@ -61,6 +61,7 @@ static const uint8_t *IN; static size_t INLEN; static const char *INLABEL;
 static vf_set SET;
 static size_t SET_REC;
 static uint32_t *PARENT; static uint8_t *OPOF; static size_t PCAP;
+static uint8_t *BADSTATE;        /* states whose observers already failed are reported once and not expanded */
 static uint64_t cb_count; static size_t cb_maxused;
 static char *tostr_buf;                     /* 4096-byte heap block */
 
@@ -516,9 +517,11 @@ static void explore_config(void)
     vf_set_insert(&SET, key, &isnew);
     cur_in_bfs = 1; cur_state = 0; cur_op = -1;
     if (!observe_state(&mm, true, KIND0 == VK_OBJ ? "init_object" : "init_array")) report(0, -1, &mm);
+    bool root_bad = false;
     for (size_t s = 0; s < SET.n; s++) {
         shadow shs;
         memcpy(&shs, vf_set_at(&SET, s) + isz, sizeof shs);
+        if (s == 0 ? root_bad : BADSTATE[s]) continue;
         for (int op = 0; op < NOPS + (P_C12 ? 1 : 0); op++) {
             if (!op_enabled(&shs, op)) continue;
             memcpy(&snap, vf_set_at(&SET, s), isz);
@@ -538,9 +541,9 @@ static void explore_config(void)
             memcpy(key, &snap, isz); memcpy(key + isz, &sh, sizeof sh);
             size_t idx = vf_set_insert(&SET, key, &isnew);
             if (isnew) {
-                if (idx >= PCAP) { PCAP = PCAP ? PCAP * 2 : 4096; PARENT = (uint32_t *) vf_xrealloc(PARENT, PCAP * sizeof *PARENT); OPOF = (uint8_t *) vf_xrealloc(OPOF, PCAP); }
-                PARENT[idx] = (uint32_t) s; OPOF[idx] = (uint8_t) op;
-                if (!observe_state(&mm, true, opname[op])) report(s, op, &mm);
+                if (idx >= PCAP) { PCAP = PCAP ? PCAP * 2 : 4096; PARENT = (uint32_t *) vf_xrealloc(PARENT, PCAP * sizeof *PARENT); OPOF = (uint8_t *) vf_xrealloc(OPOF, PCAP); BADSTATE = (uint8_t *) vf_xrealloc(BADSTATE, PCAP); }
+                PARENT[idx] = (uint32_t) s; OPOF[idx] = (uint8_t) op; BADSTATE[idx] = 0;
+                if (!observe_state(&mm, true, opname[op])) { report(s, op, &mm); BADSTATE[idx] = 1; }
                 else if (mm.prop) vf_count(CT_IGNORED_OTHER_PROP, 1);
             }
         }
@@ -628,6 +631,13 @@ static void on_doc(vf_gen *g, void *u)
     if (vf_deadline_passed()) { g->stop = true; return; }
     if (take()) process_input(g->doc.bytes, g->doc.len, vf_shape(&g->doc));
     mutants_of(&g->doc);
+}
+
+static void on_doc_plain(vf_gen *g, void *u)
+{
+    (void) u;
+    if (vf_deadline_passed()) { g->stop = true; return; }
+    if (take()) process_input(g->doc.bytes, g->doc.len, vf_shape(&g->doc));
 }
 
 /* ---- towers: nesting around every limit, linear scripted histories, max_depth up to 255 */
@@ -763,6 +773,14 @@ static void worker(int w, int W, uint64_t start)
         memset(&g, 0, sizeof g);
         g.root_kind = root; g.max_tokens = N_DOC; g.classes = cls; g.nclasses = 8; g.names = vf_names_abc; g.nnames = 2; g.max_obj_depth = 4;
         g.cb = on_doc;
+        vf_gen_run(&g);
+    }
+    /* 3b. long names (2-byte length prefix) under lookups: documents only, no mutants */
+    {
+        static const int clsl[] = { LC_INT8, LC_STR, LC_OBJ, LC_ARR };
+        memset(&g, 0, sizeof g);
+        g.root_kind = VK_OBJ; g.max_tokens = N_DOC; g.classes = clsl; g.nclasses = 4; g.names = vf_names_abL; g.nnames = 3; g.max_obj_depth = 3;
+        g.cb = on_doc_plain;
         vf_gen_run(&g);
     }
     /* 4. the writer (C09, C12, C16 speak about it too) */
